@@ -704,23 +704,18 @@ def swap_site(out_ops_list, primary_ops: List, swap_jw: bool, algo="Hopcroft-Kar
         primary_ops = primary_ops.copy()
         primary_ops.extend(auxiliary_dummy_primary_ops)
 
-    new_out_ops = _construct_symbolic_mpo(table, out_ops1, factor, primary_ops, algo=algo)
-    assert len(new_out_ops) == 4
-    new_out_ops1, new_out_ops2, new_out_ops3_unsorted = new_out_ops[:3]
-
-    # sort the out operators
-    new_out_ops3 = [None] * len(new_out_ops3_unsorted)
-    assert len(new_out_ops3) == len(primary_ops) - n_primary_ops == len(auxiliary_dummy_primary_ops)
-    assert len(new_out_ops[-1]) == 1
-    for dummy_op in new_out_ops[-1][0]:
-        idx1, idx2 = dummy_op.symbol
-        idx2 -= n_primary_ops
-        new_out_ops3[idx2] = new_out_ops3_unsorted[idx1]
-        if dummy_op.factor != 1:
-            for i, op in enumerate(new_out_ops3[idx2]):
-                new_out_ops3[idx2][i] = OpTuple(symbol=op.symbol, qn=op.qn, factor=op.factor * dummy_op.factor)
-        del dummy_op, idx1, idx2
-    assert None not in new_out_ops3
+    # first new site: ordinary one-site decomposition.  Last cut: every old bond-3 operator (one dummy label each)
+    # is written down explicitly as the complementary operator of its label, so the bond keeps its size and order
+    # whatever the vertex cover would have preferred.
+    ta = np.zeros((table.shape[0], 1), dtype=table.dtype)
+    new_out_ops2, table2, factor2 = _construct_symbolic_mpo_one_site(
+        table[:, :2], table[:, 2:], [out_ops1], factor, primary_ops, algo)
+    new_out_ops3 = [[] for _ in auxiliary_dummy_primary_ops]
+    for row, f in zip(table2, factor2):
+        symbol = np.array([row[0], row[1]])
+        qn = _compute_qn([new_out_ops2], symbol, primary_ops, 1)
+        new_out_ops3[int(row[2]) - n_primary_ops].append(OpTuple(symbol=symbol, qn=qn, factor=f))
+    assert all(len(o) > 0 for o in new_out_ops3)
 
     if not swap_jw:
         # if swap_jw == True, it's bound to fail
